@@ -43,7 +43,19 @@ CLAIMS = {
         "note": "Trusts sauron's render/render_to_string to differ only in whitespace; decides control dependence and read sets, not the rendered bytes.",
         "technique": "MIR control dependence (post-dominators), field read census, sibling expression comparison",
     },
+    "C02": {
+        "text": "Structural decision of well-formedness and text round trip: sink census over every sauron constructor call reachable from the entry points (each string argument is a harmless constant, a number, a format! of such, the output of a verified escaping function, or a token of the identifier grammar, followed through struct fields, closures and workspace calls on MIR expressions); the escaping table is interpreted exactly over all Unicode scalar values (identity set excludes < & >, non-XML characters and bare CR; only unrepresentable characters are dropped; every entity decodes to the matched character); root element shape and one render call per entry point.",
+        "design_ref": "DESIGN.md section 4 C02",
+        "note": "Trusts sauron's serializer as read (text leaves verbatim, attributes double-quoted); feature with-dom out of scope. Two genuine defects were repaired by fix: commits f67c93e and 8a59cee.",
+        "technique": "MIR taint/provenance analysis of sink arguments + exact character-set interpretation of the escaping table (syntax tree)",
+    },
+    "C08": {
+        "text": "Structural decision that input cannot inject markup: the C02 sink census (reported under C08), a vocabulary census (no constructor takes an element/attribute name or raw markup/comment from a value), exact output alphabet of the identifier grammars feeding the class attribute and the legend class names (including the `ch as u8` truncation) disjoint from quotes, angle brackets, ampersand, white space and CSS punctuation, and the server handler returning the library string unmodified.",
+        "design_ref": "DESIGN.md section 4 C08",
+        "note": "Same trusted base as C02. The grammar alphabet is computed from the pom combinator tree extracted from util.rs; map closures are assumed to rearrange characters only (their literals are checked).",
+        "technique": "MIR sink census + grammar output-alphabet computation (interval sets) + constructor who-may-call census",
+    },
 }
 
 NOT_APPLICABLE = {p: _PENDING for p in
-                  ["C01", "C02", "C03", "C04", "C05", "C06", "C08", "C09", "C10", "C12", "C13", "C14", "C15", "C16", "C17", "C19", "C20"]}
+                  ["C01", "C03", "C04", "C05", "C06", "C09", "C10", "C12", "C13", "C14", "C15", "C16", "C17", "C19", "C20"]}
